@@ -326,3 +326,237 @@ Proof.
   cbn [to_archive]. rewrite <- (app_nil_r (kid_ops kids)). rewrite find_msgs_kids by (intros o []).
   rewrite kids_of_ok by exact Hk. reflexivity.
 Qed.
+
+(* ------------------------------------------------------------------ the round trip, on fuel *)
+
+Lemma fdepth_pos f : (1 <= fdepth f)%nat.
+Proof. destruct f as [| | | | |? ? [|k] ?| | |]; cbn [fdepth]; lia. Qed.
+
+Lemma fdepth_list_in l k : In k (list_of_flist l) -> (fdepth k <= fdepth_list l)%nat.
+Proof.
+  induction l as [|f t IH]; cbn [list_of_flist In fdepth_list]; [tauto|].
+  intros [->|H]; [lia|]. specialize (IH H). lia.
+Qed.
+
+Lemma wf_flist_in l k : wf_flist l -> In k (list_of_flist l) -> wf_filter k.
+Proof.
+  induction l as [|f t IH]; cbn [list_of_flist In wf_flist]; [tauto|].
+  intros [Hf Ht] [->|H]; auto.
+Qed.
+
+Lemma roundtrip_fuel_all :
+  (forall f, wf_filter f -> forall n, (fdepth f <= n)%nat -> from_fuel n (to_archive f) = Ok f)
+  /\ (forall l, wf_flist l -> forall n, (fdepth_list l <= n)%nat ->
+        forall k, In k (list_of_flist l) -> from_fuel n (to_archive k) = Ok k)
+  /\ (forall o, wf_ofilter o -> forall n k, o = OSome k -> (fdepth k <= n)%nat -> from_fuel n (to_archive k) = Ok k).
+Proof.
+  apply filter_mutind.
+  - (* FWhat *) intros mn mx [H1 H2] n Hn. destruct n as [|n]; [cbn [fdepth] in Hn; lia|].
+    cbn [from_fuel]. apply rt_what; assumption.
+  - intros name idx tc [H1 H2] n Hn. destruct n as [|n]; [cbn [fdepth] in Hn; lia|].
+    cbn [from_fuel]. apply rt_exists; assumption.
+  - intros k name idx op mop val msk def [H1 [H2 H3]] n Hn. destruct n as [|n]; [cbn [fdepth] in Hn; lia|].
+    cbn [from_fuel]. apply rt_num; assumption.
+  - intros nn name idx op val def [H1 H2] n Hn. destruct n as [|n]; [cbn [fdepth] in Hn; lia|].
+    cbn [from_fuel]. apply rt_str; assumption.
+  - intros name idx op tc val def [H1 [H2 [H3 [H4 H5]]]] n Hn. destruct n as [|n]; [cbn [fdepth] in Hn; lia|].
+    cbn [from_fuel]. apply rt_raw; assumption.
+  - (* FMsg *) intros name idx kid IH defmsg [H1 H2] n Hn.
+    destruct n as [|n]; [pose proof (fdepth_pos (FMsg name idx kid defmsg)); lia|].
+    cbn [from_fuel]. apply rt_msg; [assumption|].
+    intros k Hk. apply (IH H2 n k Hk). subst kid. cbn [fdepth] in Hn. lia.
+  - (* FMin *) intros m kids IH [H1 H2] n Hn. cbn [fdepth] in Hn. destruct n as [|n]; [lia|].
+    cbn [from_fuel]. apply rt_min; [assumption|]. intros k Hk. apply (IH H2 n); [lia|exact Hk].
+  - intros m kids IH [H1 H2] n Hn. cbn [fdepth] in Hn. destruct n as [|n]; [lia|].
+    cbn [from_fuel]. apply rt_max; [assumption|]. intros k Hk. apply (IH H2 n); [lia|exact Hk].
+  - intros kids IH H2 n Hn. cbn [fdepth] in Hn. destruct n as [|n]; [lia|].
+    cbn [from_fuel]. apply rt_xor. intros k Hk. apply (IH H2 n); [lia|exact Hk].
+  - (* LNil *) intros _ n _ k [].
+  - (* LCons *) intros f IHf tl IHt [Hf Ht] n Hn k [<-|Hk]; cbn [fdepth_list] in Hn.
+    + apply IHf; [assumption|lia].
+    + apply (IHt Ht n); [lia|exact Hk].
+  - (* ONone *) intros _ n k H. discriminate.
+  - (* OSome *) intros f IH Hf n k H Hn. injection H as <-. apply IH; assumption.
+Qed.
+
+(* ------------------------------------------------------------------ the archive is at least as deep as the tree *)
+
+Lemma find_msg_kid_archive name idx k defmsg :
+  find_msg (to_archive (FMsg name idx (OSome k) defmsg)) nm_msg_kid 0 = Some (to_archive k).
+Proof.
+  cbn [to_archive]. to_lookups. unfold value_ops, cop_i32.
+  destruct (idx =? 0); destruct defmsg; cbn -[le_enc uval to_archive]; reflexivity.
+Qed.
+
+Lemma fdepth_le_depth_all :
+  (forall f, (fdepth f <= depth_msg (to_archive f))%nat)
+  /\ (forall l k, In k (list_of_flist l) -> (fdepth k <= depth_msg (to_archive k))%nat)
+  /\ (forall o k, o = OSome k -> (fdepth k <= depth_msg (to_archive k))%nat).
+Proof.
+  assert (Hpos : forall a, (1 <= depth_msg a)%nat) by (intros [w fs]; cbn [depth_msg]; lia).
+  assert (Hmulti : forall kids tail w,
+             (forall o, In o tail -> bytes_eqb nm_multi_kid (fst (fst o)) = false) ->
+             (forall k, In k (list_of_flist kids) -> (fdepth k <= depth_msg (to_archive k))%nat) ->
+             (S (fdepth_list kids) <= depth_msg (apply_ops (kid_ops kids ++ tail) (Msg w FNil)))%nat).
+  { intros kids tail w Ht IH.
+    assert (Hall : forall k, In k (list_of_flist kids) ->
+                     (S (fdepth k) <= depth_msg (apply_ops (kid_ops kids ++ tail) (Msg w FNil)))%nat).
+    { intros k Hk. specialize (IH k Hk).
+      assert (Hin : In (to_archive k) (find_msgs (apply_ops (kid_ops kids ++ tail) (Msg w FNil)) nm_multi_kid)).
+      { rewrite find_msgs_kids by exact Ht. clear - Hk.
+        induction kids as [|f t IHk]; cbn [list_of_flist kid_msgs In] in *; [tauto|].
+        destruct Hk as [->|Hk]; [left; reflexivity|right; auto]. }
+      apply find_msgs_depth in Hin. lia. }
+    specialize (Hpos (apply_ops (kid_ops kids ++ tail) (Msg w FNil))).
+    set (D := depth_msg (apply_ops (kid_ops kids ++ tail) (Msg w FNil))) in *. clearbody D.
+    clear - Hall Hpos. induction kids as [|f t IHk]; cbn [fdepth_list]; [lia|].
+    assert (Hf := Hall f (or_introl eq_refl)).
+    assert (Ht : (S (fdepth_list t) <= D)%nat).
+    { apply IHk. intros k Hk. apply Hall. right. exact Hk. }
+    lia. }
+  apply filter_mutind; intros; cbn [fdepth]; try apply Hpos.
+  - (* FMsg *) destruct kid as [|k]; [apply Hpos|].
+    pose proof (find_msg_depth _ _ _ _ (find_msg_kid_archive name idx k defmsg)) as Hd.
+    specialize (H k eq_refl). lia.
+  - cbn [to_archive]. apply Hmulti; [|assumption].
+    intros o Ho. rewrite (cop_i32_names _ _ _ _ Ho). reflexivity.
+  - cbn [to_archive]. apply Hmulti; [|assumption].
+    intros o Ho. rewrite (cop_i32_names _ _ _ _ Ho). reflexivity.
+  - cbn [to_archive]. rewrite <- (app_nil_r (kid_ops kids)). apply Hmulti; [intros o []|assumption].
+  - destruct H as [].
+  - destruct H1 as [<-|Hk]; [apply H|apply H0; exact Hk].
+  - discriminate.
+  - injection H0 as <-. apply H.
+Qed.
+
+(* ------------------------------------------------------------------ the theorems *)
+
+(* archive_roundtrip: restoring the archive of a filter gives back that very filter *)
+Theorem archive_roundtrip f : wf_filter f -> from_archive (to_archive f) = Ok f.
+Proof.
+  intros H. unfold from_archive. apply (proj1 roundtrip_fuel_all f H). apply (proj1 fdepth_le_depth_all).
+Qed.
+
+(* ... and therefore decides identically on every Message, for every node and every pattern matcher *)
+Corollary archive_decides_identically f :
+  wf_filter f ->
+  exists f', from_archive (to_archive f) = Ok f' /\
+             forall smatch node m, eval smatch node f' m = eval smatch node f m.
+Proof. intros H. exists f. split; [apply archive_roundtrip; exact H|reflexivity]. Qed.
+
+(* ------------------------------------------------------------------ any Message at all: a clean failure or a filter *)
+
+Definition clean {A} (r : res A) : Prop := match r with Ok _ | Err => True | Fuel | Crash => False end.
+
+Lemma clean_bind {A B} (r : res A) (g : A -> res B) : clean r -> (forall x, r = Ok x -> clean (g x)) -> clean (bind r g).
+Proof. destruct r; cbn [bind clean]; intros H Hg; try tauto. apply Hg. reflexivity. Qed.
+
+Lemma kids_of_clean inner l : (forall s, In s l -> clean (inner s)) -> clean (kids_of inner l).
+Proof.
+  induction l as [|s t IH]; intros H; cbn [kids_of]; [exact I|].
+  apply clean_bind; [apply H; left; reflexivity|]. intros f _.
+  apply clean_bind; [apply IH; intros s' Hs; apply H; right; exact Hs|]. intros r _. exact I.
+Qed.
+
+Lemma load_value_clean a : clean (load_value a).
+Proof. unfold load_value. destruct (find_string a nm_fn 0); exact I. Qed.
+
+Lemma load_num_clean k a : clean (load_num k a).
+Proof.
+  unfold load_num. apply clean_bind; [apply load_value_clean|]. intros p _.
+  destruct (find_fix a nm_num_val (nt_tc (nk_type k)) 0); [|exact I].
+  destruct (negb (elem_size (ftype_of_tc (nt_tc (nk_type k))) =? nt_size (nk_type k))); exact I.
+Qed.
+
+Lemma load_str_clean nn a : clean (load_str nn a).
+Proof.
+  unfold load_str. apply clean_bind; [apply load_value_clean|]. intros p _.
+  destruct (find_string a nm_str_val 0); [|exact I].
+  destruct (find_int a nm_str_op c_B_INT8_TYPE 8); exact I.
+Qed.
+
+Lemma load_raw_clean a : clean (load_raw a).
+Proof.
+  unfold load_raw. apply clean_bind; [apply load_value_clean|]. intros p _.
+  destruct (find_int a nm_raw_op c_B_INT8_TYPE 8); exact I.
+Qed.
+
+Lemma load_msg_clean inner a :
+  (forall s, find_msg a nm_msg_kid 0 = Some s -> clean (inner s)) -> clean (load_msg inner a).
+Proof.
+  intros H. unfold load_msg. apply clean_bind; [apply load_value_clean|]. intros p _.
+  destruct (find_msg a nm_msg_kid 0) as [s|]; [|exact I].
+  apply clean_bind; [apply H; reflexivity|]. intros k _. exact I.
+Qed.
+
+Lemma from_level_clean inner a :
+  (forall s, find_msg a nm_msg_kid 0 = Some s -> clean (inner s)) ->
+  (forall s, In s (find_msgs a nm_multi_kid) -> clean (inner s)) ->
+  clean (from_level inner a).
+Proof.
+  intros Hm Hk. unfold from_level.
+  repeat match goal with
+         | |- clean (if ?c then _ else _) => destruct c
+         end;
+  try exact I;
+  try apply load_num_clean; try apply load_str_clean; try apply load_raw_clean;
+  try (apply load_msg_clean; exact Hm);
+  try (apply clean_bind; [apply load_value_clean|intros p _; exact I]);
+  try (apply clean_bind; [apply kids_of_clean; exact Hk|intros ks _; exact I]).
+Qed.
+
+Lemma from_fuel_clean : forall n a, (depth_msg a <= n)%nat -> clean (from_fuel n a).
+Proof.
+  induction n as [|n IH]; intros a Hd.
+  - destruct a as [w fs]. cbn [depth_msg] in Hd. lia.
+  - cbn [from_fuel]. apply from_level_clean.
+    + intros s Hs. apply IH. apply find_msg_depth in Hs. lia.
+    + intros s Hs. apply IH. apply find_msgs_depth in Hs. lia.
+Qed.
+
+(* from_archive_total: for EVERY Message offered as an archive, however malformed and however deeply nested, the
+   factory returns either an error or a filter -- the model's fuel (= the nesting depth) always suffices, and no
+   abort is reachable.  (What the C++ spends on it is stack depth linear in the nesting: finding F5.) *)
+Theorem from_archive_total a : exists r, from_archive a = r /\ (r = Err \/ exists f, r = Ok f).
+Proof.
+  pose proof (from_fuel_clean (depth_msg a) a (le_n _)) as H. unfold from_archive.
+  destruct (from_fuel (depth_msg a) a) as [f| | |]; cbn [clean] in H; try tauto.
+  - eexists. split; [reflexivity|]. right. eexists. reflexivity.
+  - eexists. split; [reflexivity|]. left. reflexivity.
+Qed.
+
+(* more fuel never changes an answer *)
+Lemma from_fuel_mono : forall n a r, from_fuel n a = r -> clean r -> forall k, from_fuel (n + k) a = r.
+Proof.
+  assert (Hk : forall inner1 inner2 l r, kids_of inner1 l = r -> clean r ->
+                (forall s x, In s l -> inner1 s = x -> clean x -> inner2 s = x) -> kids_of inner2 l = r).
+  { intros i1 i2 l. induction l as [|s t IH]; intros r Hr Hc Hi; cbn [kids_of] in *; [exact Hr|].
+    destruct (i1 s) as [f| | |] eqn:E1; cbn [bind] in Hr; subst r; cbn [clean] in Hc; try tauto.
+    - rewrite (Hi s (Ok f) (or_introl eq_refl) E1 I). cbn [bind].
+      destruct (kids_of i1 t) as [ks| | |] eqn:E2; cbn [bind clean] in Hc; try tauto.
+      + rewrite (IH (Ok ks) eq_refl I); [reflexivity|]. intros s' x Hs'. apply Hi. right. exact Hs'.
+      + rewrite (IH Err eq_refl I); [reflexivity|]. intros s' x Hs'. apply Hi. right. exact Hs'.
+    - rewrite (Hi s Err (or_introl eq_refl) E1 I). reflexivity. }
+  induction n as [|n IH]; intros a r Hr Hc k.
+  - cbn [from_fuel] in Hr. subst r. destruct Hc.
+  - replace (S n + k)%nat with (S (n + k)) by lia. cbn [from_fuel] in *.
+    revert Hr. unfold from_level.
+    repeat match goal with
+           | |- (if ?c then _ else _) = _ -> _ => destruct c
+           end; try (intros <-; reflexivity).
+    + (* Message filter *)
+      unfold load_msg. destruct (load_value a) as [p| | |]; cbn [bind]; try (intros <-; reflexivity).
+      destruct (find_msg a nm_msg_kid 0) as [s|]; [|intros <-; reflexivity].
+      destruct (from_fuel n s) as [f| | |] eqn:E; cbn [bind]; intros <-; cbn [clean] in Hc; try tauto.
+      * rewrite (IH s (Ok f) E I k). reflexivity.
+      * rewrite (IH s Err E I k). reflexivity.
+    + intros Hr. destruct (kids_of (from_fuel n) (find_msgs a nm_multi_kid)) as [ks| | |] eqn:E; cbn [bind] in Hr; subst r; cbn [clean] in Hc; try tauto.
+      * rewrite (Hk _ (from_fuel (n + k)) _ _ E I); [reflexivity|]. intros s x _ Hx Hcx. apply IH; assumption.
+      * rewrite (Hk _ (from_fuel (n + k)) _ _ E I); [reflexivity|]. intros s x _ Hx Hcx. apply IH; assumption.
+    + intros Hr. destruct (kids_of (from_fuel n) (find_msgs a nm_multi_kid)) as [ks| | |] eqn:E; cbn [bind] in Hr; subst r; cbn [clean] in Hc; try tauto.
+      * rewrite (Hk _ (from_fuel (n + k)) _ _ E I); [reflexivity|]. intros s x _ Hx Hcx. apply IH; assumption.
+      * rewrite (Hk _ (from_fuel (n + k)) _ _ E I); [reflexivity|]. intros s x _ Hx Hcx. apply IH; assumption.
+    + intros Hr. destruct (kids_of (from_fuel n) (find_msgs a nm_multi_kid)) as [ks| | |] eqn:E; cbn [bind] in Hr; subst r; cbn [clean] in Hc; try tauto.
+      * rewrite (Hk _ (from_fuel (n + k)) _ _ E I); [reflexivity|]. intros s x _ Hx Hcx. apply IH; assumption.
+      * rewrite (Hk _ (from_fuel (n + k)) _ _ E I); [reflexivity|]. intros s x _ Hx Hcx. apply IH; assumption.
+Qed.
